@@ -27,6 +27,28 @@ PROPS = {
     },
 }
 
+PROPS["C01"] = {
+    "pkg": "p01",
+    "level": "exploration",
+    "level_text": "Differential search against an independent reference interpreter written from docs/spec.md: ~5*10^4 (quick) / ~10^6 "
+                  "(thorough) generated well-typed programs per run, each rendered with randomised legal layout and compared effect by "
+                  "effect (print text, tracer order, outcome class) with the real evaluator. No counterexample found is evidence, not proof.",
+    "level_note": "Trusts the harness's reading of the specification (model interpreter in harness/m) and its renderer. Regions the documents "
+                  "leave open (division by zero, sign of % on negative operands, non-finite results, accumulated vs multiplied range steps) "
+                  "are skipped, counted as skipped:unspecified. Number formatting is assumed to be shortest decimal without exponent as in the docs' examples.",
+    "technique": "property-based differential testing: type-directed program generator + reference interpreter oracle (rapid)",
+    "tests": [
+        {"name": "TestProp", "quick": {"shards": 8, "checks": 6000}, "thorough": {"shards": 16, "checks": 60000}},
+    ],
+    "rule": "cases: generated well-typed programs (declarations, assignments, prints over expression trees of depth 1-5 with every operator on "
+            "num/string/bool/array/map/any operands, tracer functions that print when evaluated, user functions, index/slice/dot/group), "
+            "rendered with random legal whitespace, redundant and omitted parentheses, number and string spellings, multi-line literals, "
+            "comments. Non-trivial = at least two binary operators with a precedence boundary rendered without parentheses, or a tracer "
+            "under and/or, or at least two tracer calls; distinct by source text.",
+    "assumptions": ["reference interpreter harness/m/interp.go is the statement of the language definition",
+                    "print shows numbers in shortest decimal form without exponent"],
+}
+
 NOT_APPLICABLE = {}
 
 ENGINES = [
